@@ -479,7 +479,7 @@ struct W2Run { found: Option<Found>, before: Vec<Vec<u8>>, after: Vec<Vec<u8>>, 
 
 /// placement 0: the change happens between WATCH and MULTI; 1: between MULTI (+ one queued command) and EXEC.
 /// watch_mode 0: WATCH w; 1: WATCH a1 w z9 (w in the middle of several keys); 2: WATCH w issued twice; 3: WATCH z9, then WATCH w
-async fn run_w2(cfg: &Cfg, sc: &W2, placement: u8, watch_mode: u8) -> W2Run { run_w2_s(cfg, sc, placement, watch_mode, std::env::var("VERIF_WATCH_ORDER").is_ok()).await }
+async fn run_w2(cfg: &Cfg, sc: &W2, placement: u8, watch_mode: u8) -> W2Run { run_w2_s(cfg, sc, placement, watch_mode, std::env::var("VERIF_WATCH_ORDER").map(|v| v != "0").unwrap_or(true)).await }
 
 /// strict_order: a set / hash whose members are unchanged but LISTED in another order (the hash table was rebuilt) counts as unchanged
 /// (the property: same value => EXEC applies).  The pinned tree aborts EXEC there (reported finding, trigger `watch_order_only`); without
